@@ -751,6 +751,7 @@ def judge_call(b, phase, loss, only=None, judge_loss=True):
     if layout_bad or not judge_loss:
         return V, judged, cnt       # the broadcast of mis-laid-out arguments has no documented meaning
     R = D.Resolver({s: sets[s][0] for s in sets}, b.twin, data_used, pvals, dvals, fsvals)
+    R.dspecs = datas
     try:
         r64 = D.residual_np(case["residual"], R)
         m64 = D.residual_np(case["residual"], R, mag=True)
